@@ -1,1 +1,1301 @@
-fn main() {}
+//! C15 — serialization round-trips; deserialization never yields an
+//! out-of-range value. Deterministic simulation of a storage device carrying
+//! serialized records, with write, crash, at-rest and read fault injection,
+//! plus concurrent first use of the shared formatters under Miri's seeded
+//! scheduler (driven from here, see `threads.rs`).
+//!
+//! usage: c15 --tier quick|thorough [--runs N] [--miri-seeds N] [--no-miri]
+//!        c15 --replay FILE
+
+mod codec;
+mod disk;
+mod values;
+
+use codec::{Decoded, Encoded};
+use disk::{DiskReader, ReadFault, SimDisk, WriteFault};
+use serde_json::{json, Value};
+use simcore::civil::*;
+use simcore::pool::{self, Cutoff, Merge};
+use simcore::rng::{tag, Rng};
+use simcore::{Fnv, EXIT_HARNESS, EXIT_OK, EXIT_VIOLATION};
+use std::collections::{BTreeMap, BTreeSet};
+use values::*;
+
+const PROPERTY: &str = "C15";
+
+#[derive(Clone, Debug, PartialEq)]
+enum Op {
+    Write { ty: Ty, raw: i64, codec: Codec, fault: WriteFault },
+    ForeignBin { ty: Ty, raw: i64 },
+    ForeignText { ty: Ty, text: String },
+    Sync,
+    CrashLose,
+    CrashTorn { keep: usize, fill: u8 },
+    BitFlip { pos: usize, bit: u8 },
+    Zero { pos: usize, len: usize },
+    Dup { src: usize, dst: usize, len: usize },
+    Truncate { len: usize },
+    ReadAll { fault: ReadFault, eof_record: usize },
+}
+
+#[derive(Clone, Debug)]
+struct Script {
+    seed: u64,
+    run: u64,
+    fault_free: bool,
+    enumerate: bool,
+    ops: Vec<Op>,
+}
+
+#[derive(Clone, Debug)]
+struct Entry {
+    off: usize,
+    len: usize,
+    ty: Ty,
+    codec: Codec,
+    /// Some(raw) if produced by the library's serializer from that value
+    value: Option<i64>,
+    acked: bool,
+    lost: bool,
+    payload_kind: &'static str,
+}
+
+#[derive(Clone, Debug)]
+struct Violation {
+    class: &'static str,
+    sig: String,
+    detail: String,
+}
+
+const FAULTS: [&str; 12] = [
+    "short_write", "eintr_write", "eio", "enospc", "crash_lost", "crash_torn", "bit_flip", "zeroed", "dup_sector",
+    "truncate", "short_read_or_eintr_read", "early_eof",
+];
+
+#[derive(Default, Clone)]
+struct Stats {
+    runs: u64,
+    records: u64,
+    decodes: u64,
+    encodes: u64,
+    enumerated_decodes: u64,
+    fault_configured: [u64; 12],
+    fault_fired: [u64; 12],
+    outcomes: BTreeMap<(Ty, Codec, &'static str), u64>,
+    probes: BTreeMap<&'static str, u64>,
+    max_text_len: usize,
+    distinct: BTreeSet<u64>,
+    batch_hash: u64,
+    samples: Vec<Value>,
+    violations: Vec<(u64, Script, Violation)>,
+}
+
+impl Merge for Stats {
+    fn merge(&mut self, o: Self) {
+        self.runs += o.runs;
+        self.records += o.records;
+        self.decodes += o.decodes;
+        self.encodes += o.encodes;
+        self.enumerated_decodes += o.enumerated_decodes;
+        for i in 0..12 {
+            self.fault_configured[i] += o.fault_configured[i];
+            self.fault_fired[i] += o.fault_fired[i];
+        }
+        for (k, v) in o.outcomes {
+            *self.outcomes.entry(k).or_default() += v;
+        }
+        for (k, v) in o.probes {
+            *self.probes.entry(k).or_default() += v;
+        }
+        self.max_text_len = self.max_text_len.max(o.max_text_len);
+        self.distinct.extend(o.distinct);
+        self.batch_hash = self.batch_hash.wrapping_add(o.batch_hash);
+        for s in o.samples {
+            if self.samples.len() < 6 {
+                self.samples.push(s);
+            }
+        }
+        self.violations.extend(o.violations);
+        self.violations.sort_by_key(|v| v.0);
+        self.violations.truncate(4);
+    }
+}
+
+impl Stats {
+    fn probe(&mut self, name: &'static str) {
+        *self.probes.entry(name).or_default() += 1;
+    }
+    fn outcome(&mut self, ty: Ty, codec: Codec, what: &'static str) {
+        *self.outcomes.entry((ty, codec, what)).or_default() += 1;
+    }
+    fn distinct(&mut self, ty: Ty, codec: Codec, fault: &str, class: u64, outcome: &str) {
+        let mut h = Fnv::new();
+        h.write(ty.name().as_bytes());
+        h.write(codec.name().as_bytes());
+        h.write(fault.as_bytes());
+        h.write_u64(class);
+        h.write(outcome.as_bytes());
+        self.distinct.insert(h.finish());
+    }
+}
+
+/// Judges one decode result. `expect` = Some(raw) when the record is an
+/// acknowledged, durable, untouched product of the library's own serializer.
+fn judge(
+    ty: Ty,
+    codec: Codec,
+    payload_kind: &str,
+    got: &Decoded,
+    expect: Option<i64>,
+    what: &str,
+    stats: &mut Stats,
+) -> Option<Violation> {
+    match got {
+        Decoded::Panic(msg) => {
+            stats.outcome(ty, codec, "panic");
+            Some(Violation {
+                class: "panic",
+                sig: format!("panic:{}:{}:{}", ty.name(), codec.name(), payload_kind),
+                detail: format!("decoding {} as {} ({}) panicked: {}", what, ty.name(), codec.name(), msg),
+            })
+        }
+        Decoded::Ok(v) => {
+            if !ty.in_range(*v) {
+                stats.outcome(ty, codec, "ok_out_of_range");
+                return Some(Violation {
+                    class: "out_of_range",
+                    sig: format!("out_of_range:{}:{}:{}", ty.name(), codec.name(), payload_kind),
+                    detail: format!(
+                        "decoding {} as {} ({}) returned Ok with raw count {} outside the documented range [{}, {}]{}",
+                        what,
+                        ty.name(),
+                        codec.name(),
+                        v,
+                        ty.lo(),
+                        ty.hi(),
+                        if ty == Ty::Oracle { " (whole seconds)" } else { "" }
+                    ),
+                });
+            }
+            if *v == ty.lo() {
+                stats.probe("decoded_exactly_min");
+            }
+            if *v == ty.hi() {
+                stats.probe("decoded_exactly_max");
+            }
+            match expect {
+                Some(e) if e != *v => {
+                    stats.outcome(ty, codec, "ok_other_in_range");
+                    Some(Violation {
+                        class: "roundtrip",
+                        sig: format!("roundtrip:{}:{}", ty.name(), codec.name()),
+                        detail: format!(
+                            "{} ({}) value with raw count {} was serialized, acknowledged, synced and not touched by any fault, but {} decodes to {}",
+                            ty.name(),
+                            codec.name(),
+                            e,
+                            what,
+                            v
+                        ),
+                    })
+                }
+                Some(_) => {
+                    stats.outcome(ty, codec, "ok_same");
+                    None
+                }
+                None => {
+                    stats.outcome(ty, codec, "ok_in_range_damaged_or_foreign");
+                    None
+                }
+            }
+        }
+        Decoded::Err => {
+            stats.outcome(ty, codec, "err");
+            match expect {
+                Some(e) => Some(Violation {
+                    class: "roundtrip",
+                    sig: format!("roundtrip:{}:{}", ty.name(), codec.name()),
+                    detail: format!(
+                        "{} ({}) value with raw count {} was serialized, acknowledged, synced and not touched by any fault, but decoding {} fails",
+                        ty.name(),
+                        codec.name(),
+                        e,
+                        what
+                    ),
+                }),
+                None => None,
+            }
+        }
+    }
+}
+
+fn show_bytes(b: &[u8]) -> String {
+    match std::str::from_utf8(b) {
+        Ok(s) if s.chars().all(|c| !c.is_control()) => format!("{:?}", s),
+        _ => format!("bytes {:02x?}", b),
+    }
+}
+
+/// Enumerates every single at-rest fault on a clean record: each bit flip,
+/// each truncation length.
+fn enumerate_record(ty: Ty, codec: Codec, clean: &[u8], stats: &mut Stats) -> Option<Violation> {
+    let mut buf = clean.to_vec();
+    for pos in 0..clean.len() {
+        for bit in 0..8u8 {
+            buf[pos] ^= 1 << bit;
+            let got = codec::decode_slice(ty, codec, &buf);
+            stats.decodes += 1;
+            stats.enumerated_decodes += 1;
+            stats.fault_configured[6] += 1;
+            stats.fault_fired[6] += 1;
+            let oc = match &got {
+                Decoded::Ok(_) => "ok",
+                Decoded::Err => "err",
+                Decoded::Panic(_) => "panic",
+            };
+            stats.distinct(ty, codec, "bit_flip", (pos.min(40) * 8 + bit as usize) as u64, oc);
+            let what = format!("{} (bit {} of byte {} flipped in {})", show_bytes(&buf), bit, pos, show_bytes(clean));
+            if let Some(v) = judge(ty, codec, "bit_flip", &got, None, &what, stats) {
+                return Some(v);
+            }
+            buf[pos] ^= 1 << bit;
+        }
+    }
+    for len in 0..clean.len() {
+        let got = codec::decode_slice(ty, codec, &clean[..len]);
+        stats.decodes += 1;
+        stats.enumerated_decodes += 1;
+        stats.fault_configured[9] += 1;
+        stats.fault_fired[9] += 1;
+        let oc = match &got {
+            Decoded::Ok(_) => "ok",
+            Decoded::Err => "err",
+            Decoded::Panic(_) => "panic",
+        };
+        stats.distinct(ty, codec, "truncate", len.min(40) as u64, oc);
+        let what = format!("{} (truncated to {} of {} bytes)", show_bytes(&clean[..len]), len, clean.len());
+        if let Some(v) = judge(ty, codec, "truncate", &got, None, &what, stats) {
+            return Some(v);
+        }
+    }
+    None
+}
+
+struct World {
+    disk: SimDisk,
+    cat: Vec<Entry>,
+}
+
+fn exec_op(op: &Op, w: &mut World, enumerate: bool, stats: &mut Stats, log: &mut Fnv) -> Option<Violation> {
+    match op {
+        Op::Write { ty, raw, codec, fault } => {
+            let off = w.disk.data.len();
+            let mut wr = w.disk.writer(*fault);
+            let res = codec::encode(*ty, *raw, *codec, &mut wr);
+            let fired = wr.fault_fired;
+            stats.encodes += 1;
+            let fi = match fault {
+                WriteFault::None => None,
+                WriteFault::Short { .. } => Some(0),
+                WriteFault::Eintr { .. } => Some(1),
+                WriteFault::Eio { .. } => Some(2),
+                WriteFault::Enospc { .. } => Some(3),
+            };
+            if let Some(i) = fi {
+                stats.fault_configured[i] += 1;
+                if fired {
+                    stats.fault_fired[i] += 1;
+                }
+            }
+            let len = w.disk.data.len() - off;
+            log.write(b"w");
+            log.write_i64(*raw);
+            log.write_u64(len as u64);
+            match res {
+                Encoded::Ok => {
+                    stats.records += 1;
+                    if *codec == Codec::Json {
+                        stats.max_text_len = stats.max_text_len.max(len.saturating_sub(2));
+                    }
+                    let clean: Vec<u8> = w.disk.data[off..off + len].to_vec();
+                    w.cat.push(Entry {
+                        off,
+                        len,
+                        ty: *ty,
+                        codec: *codec,
+                        value: Some(*raw),
+                        acked: true,
+                        lost: false,
+                        payload_kind: "serialized",
+                    });
+                    if *codec == Codec::Bincode && len != ty.bin_width() {
+                        return Some(Violation {
+                            class: "roundtrip",
+                            sig: format!("binary_width:{}", ty.name()),
+                            detail: format!("{} serialized to {} bytes in the compact binary form, expected the raw {}-byte count", ty.name(), len, ty.bin_width()),
+                        });
+                    }
+                    if enumerate {
+                        // immediate fault-free read-back, then every single at-rest fault
+                        let got = codec::decode_slice(*ty, *codec, &clean);
+                        stats.decodes += 1;
+                        let what = show_bytes(&clean);
+                        if let Some(v) = judge(*ty, *codec, "serialized", &got, Some(*raw), &what, stats) {
+                            return Some(v);
+                        }
+                        if let Some(v) = enumerate_record(*ty, *codec, &clean, stats) {
+                            return Some(v);
+                        }
+                    }
+                    None
+                }
+                Encoded::Err(e) => {
+                    log.write(b"werr");
+                    w.cat.push(Entry {
+                        off,
+                        len,
+                        ty: *ty,
+                        codec: *codec,
+                        value: Some(*raw),
+                        acked: false,
+                        lost: false,
+                        payload_kind: "partial",
+                    });
+                    if !fired {
+                        return Some(Violation {
+                            class: "serialize_failed",
+                            sig: format!("serialize_failed:{}:{}", ty.name(), codec.name()),
+                            detail: format!(
+                                "serializing {} with raw count {} as {} failed although no write fault was injected: {}",
+                                ty.name(),
+                                raw,
+                                codec.name(),
+                                e
+                            ),
+                        });
+                    }
+                    None
+                }
+                Encoded::Panic(msg) => Some(Violation {
+                    class: "panic",
+                    sig: format!("panic_serialize:{}:{}", ty.name(), codec.name()),
+                    detail: format!("serializing {} raw {} as {} panicked: {}", ty.name(), raw, codec.name(), msg),
+                }),
+                Encoded::NotAValue => None,
+            }
+        }
+        Op::ForeignBin { ty, raw } => {
+            let off = w.disk.data.len();
+            let bytes: Vec<u8> = if ty.bin_width() == 4 {
+                (*raw as i32).to_le_bytes().to_vec()
+            } else {
+                raw.to_le_bytes().to_vec()
+            };
+            w.disk.data.extend_from_slice(&bytes);
+            w.disk.damaged.resize(w.disk.data.len(), false);
+            w.cat.push(Entry {
+                off,
+                len: bytes.len(),
+                ty: *ty,
+                codec: Codec::Bincode,
+                value: None,
+                acked: true,
+                lost: false,
+                payload_kind: "foreign_raw",
+            });
+            stats.records += 1;
+            if *raw == ty.lo() - 1 || *raw == ty.hi() + 1 {
+                stats.probe("raw_payload_one_past_a_limit");
+            }
+            if *raw == i64::MAX || *raw == i64::MIN || *raw == i32::MAX as i64 || *raw == i32::MIN as i64 {
+                stats.probe("raw_payload_integer_extreme");
+            }
+            if *ty == Ty::Oracle && raw.rem_euclid(1_000_000) != 0 {
+                stats.probe("oracle_payload_with_subsecond_part");
+            }
+            log.write(b"fb");
+            log.write_i64(*raw);
+            None
+        }
+        Op::ForeignText { ty, text } => {
+            let off = w.disk.data.len();
+            let bytes = serde_json::to_vec(text).expect("json string");
+            w.disk.data.extend_from_slice(&bytes);
+            w.disk.damaged.resize(w.disk.data.len(), false);
+            w.cat.push(Entry {
+                off,
+                len: bytes.len(),
+                ty: *ty,
+                codec: Codec::Json,
+                value: None,
+                acked: true,
+                lost: false,
+                payload_kind: "foreign_text",
+            });
+            stats.records += 1;
+            stats.probe("malformed_or_out_of_range_text_payload");
+            log.write(b"ft");
+            log.write(text.as_bytes());
+            None
+        }
+        Op::Sync => {
+            w.disk.sync();
+            log.write(b"s");
+            None
+        }
+        Op::CrashLose => {
+            let synced = w.disk.synced;
+            let had_tail = w.disk.data.len() > synced;
+            w.disk.crash_lose_tail();
+            for e in w.cat.iter_mut() {
+                if e.off + e.len > synced {
+                    e.lost = true;
+                }
+            }
+            stats.fault_configured[4] += 1;
+            if had_tail {
+                stats.fault_fired[4] += 1;
+            }
+            log.write(b"cl");
+            None
+        }
+        Op::CrashTorn { keep, fill } => {
+            let synced = w.disk.synced;
+            let had_tail = w.disk.data.len() > synced;
+            let stale: Vec<u8> = w.disk.data[..synced.min(64)].to_vec();
+            w.disk.crash_torn(*keep, *fill, &stale);
+            for e in w.cat.iter_mut() {
+                if e.off + e.len > synced {
+                    e.lost = true;
+                }
+            }
+            stats.fault_configured[5] += 1;
+            if had_tail {
+                stats.fault_fired[5] += 1;
+            }
+            log.write(b"ct");
+            None
+        }
+        Op::BitFlip { pos, bit } => {
+            stats.fault_configured[6] += 1;
+            if w.disk.flip_bit(*pos, *bit) {
+                stats.fault_fired[6] += 1;
+            }
+            log.write(b"bf");
+            None
+        }
+        Op::Zero { pos, len } => {
+            stats.fault_configured[7] += 1;
+            if w.disk.zero(*pos, *len) > 0 {
+                stats.fault_fired[7] += 1;
+            }
+            log.write(b"z");
+            None
+        }
+        Op::Dup { src, dst, len } => {
+            stats.fault_configured[8] += 1;
+            if w.disk.dup_sector(*src, *dst, *len) > 0 {
+                stats.fault_fired[8] += 1;
+            }
+            log.write(b"d");
+            None
+        }
+        Op::Truncate { len } => {
+            stats.fault_configured[9] += 1;
+            if *len < w.disk.data.len() {
+                stats.fault_fired[9] += 1;
+            }
+            w.disk.truncate(*len);
+            log.write(b"t");
+            None
+        }
+        Op::ReadAll { fault, eof_record } => {
+            // restart: everything that was not synced is whatever the crash left; read every record
+            for (i, e) in w.cat.iter().enumerate() {
+                let (slice, touched) = w.disk.record(e.off, e.len);
+                let mut rf = *fault;
+                if i != *eof_record {
+                    rf.early_eof = usize::MAX;
+                }
+                let mut rd = DiskReader::new(slice, rf);
+                let got = codec::decode(e.ty, e.codec, &mut rd);
+                stats.decodes += 1;
+                if fault.max != usize::MAX || fault.eintr_every != 0 {
+                    stats.fault_configured[10] += 1;
+                    if rd.short_fired > 0 || rd.eintr_fired > 0 {
+                        stats.fault_fired[10] += 1;
+                    }
+                }
+                if i == *eof_record && fault.early_eof != usize::MAX {
+                    stats.fault_configured[11] += 1;
+                    if rd.eof_fired {
+                        stats.fault_fired[11] += 1;
+                    }
+                }
+                let clean = e.acked && !e.lost && !touched && !rd.eof_fired;
+                let expect = if clean { e.value } else { None };
+                match &got {
+                    Decoded::Ok(v) => {
+                        log.write(b"ok");
+                        log.write_i64(*v);
+                    }
+                    Decoded::Err => log.write(b"er"),
+                    Decoded::Panic(_) => log.write(b"pa"),
+                }
+                if !clean {
+                    let oc = match &got {
+                        Decoded::Ok(_) => "ok",
+                        Decoded::Err => "err",
+                        Decoded::Panic(_) => "panic",
+                    };
+                    let kind = if e.lost {
+                        "crash"
+                    } else if rd.eof_fired {
+                        "early_eof"
+                    } else if !e.acked {
+                        "failed_write"
+                    } else {
+                        "at_rest"
+                    };
+                    stats.distinct(e.ty, e.codec, kind, slice.len().min(40) as u64, oc);
+                }
+                let what = format!("record #{} = {}", i, show_bytes(slice));
+                if let Some(v) = judge(e.ty, e.codec, e.payload_kind, &got, expect, &what, stats) {
+                    return Some(v);
+                }
+            }
+            None
+        }
+    }
+}
+
+fn run_script(s: &Script, stats: &mut Stats) -> (Option<(usize, Violation)>, u64) {
+    let mut w = World {
+        disk: SimDisk::default(),
+        cat: Vec::new(),
+    };
+    let mut log = Fnv::new();
+    for (i, op) in s.ops.iter().enumerate() {
+        if let Some(v) = exec_op(op, &mut w, s.enumerate, stats, &mut log) {
+            return (Some((i, v)), log.finish());
+        }
+    }
+    (None, log.finish())
+}
+
+fn draw_write_fault(rng: &mut Rng) -> WriteFault {
+    match rng.below(10) {
+        0 => WriteFault::Short { max: 1 + rng.usize_below(5) },
+        1 => WriteFault::Eintr { nth: 1 + rng.usize_below(4) },
+        2 => WriteFault::Eio { at: rng.usize_below(30) },
+        3 => WriteFault::Enospc { at: rng.usize_below(30) },
+        _ => WriteFault::None,
+    }
+}
+
+/// Generates and executes one run (generation sees the disk so that fault
+/// positions land inside written data), recording the materialised script.
+fn simulate_run(seed: u64, run: u64, fault_free: bool, stats: &mut Stats) -> Option<(Script, Violation)> {
+    let mut rng = Rng::for_run(seed, if fault_free { tag("C15-clean") } else { tag("C15-fault") }, run);
+    let mut w = World {
+        disk: SimDisk::default(),
+        cat: Vec::new(),
+    };
+    let mut log = Fnv::new();
+    let mut ops: Vec<Op> = Vec::new();
+    let enumerate = !fault_free && rng.chance(1, 3);
+    let n_records = 1 + rng.usize_below(24);
+    // swarm: which fault kinds this run uses
+    let use_write_faults = !fault_free && rng.chance(1, 2);
+    let use_crash = !fault_free && rng.chance(1, 2);
+    let use_at_rest = !fault_free && rng.chance(2, 3);
+    let use_read_faults = !fault_free && rng.chance(1, 2);
+    let use_foreign = !fault_free && rng.chance(1, 2);
+    let sync_rate = *rng.pick(&[1u64, 3, 10]);
+    let mut found: Option<Violation> = None;
+
+    macro_rules! step {
+        ($op:expr) => {{
+            let op = $op;
+            ops.push(op.clone());
+            if let Some(v) = exec_op(&op, &mut w, enumerate, stats, &mut log) {
+                found = Some(v);
+            }
+        }};
+    }
+
+    'gen: {
+        let crash_after = if use_crash { rng.usize_below(n_records + 1) } else { usize::MAX };
+        for i in 0..n_records {
+            if i == crash_after {
+                if rng.bool() {
+                    step!(Op::CrashLose);
+                } else {
+                    let tail = w.disk.data.len() - w.disk.synced;
+                    step!(Op::CrashTorn { keep: rng.usize_below(tail + 1), fill: rng.below(3) as u8 });
+                }
+                if found.is_some() {
+                    break 'gen;
+                }
+            }
+            let ty = *rng.pick(&ALL_TYPES);
+            if use_foreign && rng.chance(1, 4) {
+                if rng.bool() {
+                    let raws = foreign_raws(ty);
+                    step!(Op::ForeignBin { ty, raw: *rng.pick(&raws) });
+                } else {
+                    let texts = foreign_texts(ty);
+                    step!(Op::ForeignText { ty, text: rng.pick(&texts).to_string() });
+                }
+            } else {
+                let codec = if rng.bool() { Codec::Json } else { Codec::Bincode };
+                let fault = if use_write_faults { draw_write_fault(&mut rng) } else { WriteFault::None };
+                step!(Op::Write { ty, raw: draw_value(&mut rng, ty), codec, fault });
+            }
+            if found.is_some() {
+                break 'gen;
+            }
+            if rng.below(10) < sync_rate {
+                step!(Op::Sync);
+            }
+        }
+        if crash_after == n_records {
+            step!(Op::CrashLose);
+        } else if !use_crash || rng.bool() {
+            step!(Op::Sync);
+        }
+        if use_at_rest && !w.disk.data.is_empty() {
+            let n = 1 + rng.usize_below(4);
+            for _ in 0..n {
+                let len = w.disk.data.len();
+                // bias towards record starts and ends
+                let pos = if rng.bool() && !w.cat.is_empty() {
+                    let e = rng.pick(&w.cat).clone();
+                    (e.off + rng.usize_below(e.len.max(1))).min(len.saturating_sub(1))
+                } else {
+                    rng.usize_below(len.max(1))
+                };
+                match rng.below(8) {
+                    0..=3 => step!(Op::BitFlip { pos, bit: rng.below(8) as u8 }),
+                    4 | 5 => step!(Op::Zero { pos, len: 1 + rng.usize_below(8) }),
+                    6 => step!(Op::Dup { src: rng.usize_below(len.max(1)), dst: pos, len: 1 + rng.usize_below(16) }),
+                    _ => step!(Op::Truncate { len: pos }),
+                }
+            }
+        }
+        let fault = if use_read_faults {
+            ReadFault {
+                max: *rng.pick(&[1usize, 1, 2, 3, 7, usize::MAX]),
+                eintr_every: *rng.pick(&[0usize, 1, 2, 5]),
+                early_eof: if rng.chance(1, 3) { rng.usize_below(30) } else { usize::MAX },
+            }
+        } else {
+            ReadFault::NONE
+        };
+        let eof_record = if w.cat.is_empty() { 0 } else { rng.usize_below(w.cat.len()) };
+        step!(Op::ReadAll { fault, eof_record });
+    }
+    stats.runs += 1;
+    stats.batch_hash = stats
+        .batch_hash
+        .wrapping_add(pool::batch_mix(run ^ if fault_free { 1 << 62 } else { 0 }, log.finish()));
+    if stats.samples.len() < 2 && run < 8 && !fault_free {
+        stats.samples.push(json!({"run": run, "script": script_to_json(&Script { seed, run, fault_free, enumerate, ops: ops.clone() })}));
+    }
+    found.map(|v| (Script { seed, run, fault_free, enumerate, ops }, v))
+}
+
+fn shrink(mut s: Script, class: &str) -> Script {
+    let fails = |c: &Script| -> bool {
+        let mut st = Stats::default();
+        matches!(run_script(c, &mut st).0, Some((_, v)) if v.class == class)
+    };
+    if !fails(&s) {
+        return s;
+    }
+    loop {
+        let mut changed = false;
+        let mut st = Stats::default();
+        if let (Some((i, _)), _) = run_script(&s, &mut st) {
+            if i + 1 < s.ops.len() {
+                let mut c = s.clone();
+                c.ops.truncate(i + 1);
+                if fails(&c) {
+                    s = c;
+                    changed = true;
+                }
+            }
+        }
+        let mut i = s.ops.len();
+        while i > 0 {
+            i -= 1;
+            let mut c = s.clone();
+            c.ops.remove(i);
+            if fails(&c) {
+                s = c;
+                changed = true;
+            }
+        }
+        // simplify write faults and read faults
+        for i in 0..s.ops.len() {
+            let mut c = s.clone();
+            let simpler = match &c.ops[i] {
+                Op::Write { ty, raw, codec, fault } if *fault != WriteFault::None => {
+                    Some(Op::Write { ty: *ty, raw: *raw, codec: *codec, fault: WriteFault::None })
+                }
+                Op::ReadAll { fault, .. } if *fault != ReadFault::NONE => Some(Op::ReadAll { fault: ReadFault::NONE, eof_record: 0 }),
+                _ => None,
+            };
+            if let Some(op) = simpler {
+                c.ops[i] = op;
+                if fails(&c) {
+                    s = c;
+                    changed = true;
+                }
+            }
+        }
+        if !changed {
+            break;
+        }
+    }
+    s
+}
+
+fn wf_to_json(f: &WriteFault) -> Value {
+    match f {
+        WriteFault::None => json!("none"),
+        WriteFault::Short { max } => json!({"short": max}),
+        WriteFault::Eintr { nth } => json!({"eintr_nth_call": nth}),
+        WriteFault::Eio { at } => json!({"eio_at_byte": at}),
+        WriteFault::Enospc { at } => json!({"enospc_at_byte": at}),
+    }
+}
+
+fn wf_from_json(v: &Value) -> WriteFault {
+    if let Some(m) = v.get("short").and_then(|x| x.as_u64()) {
+        WriteFault::Short { max: m as usize }
+    } else if let Some(m) = v.get("eintr_nth_call").and_then(|x| x.as_u64()) {
+        WriteFault::Eintr { nth: m as usize }
+    } else if let Some(m) = v.get("eio_at_byte").and_then(|x| x.as_u64()) {
+        WriteFault::Eio { at: m as usize }
+    } else if let Some(m) = v.get("enospc_at_byte").and_then(|x| x.as_u64()) {
+        WriteFault::Enospc { at: m as usize }
+    } else {
+        WriteFault::None
+    }
+}
+
+fn us(v: usize) -> Value {
+    if v == usize::MAX {
+        json!("none")
+    } else {
+        json!(v)
+    }
+}
+fn us_back(v: &Value) -> usize {
+    v.as_u64().map(|x| x as usize).unwrap_or(usize::MAX)
+}
+
+fn script_to_json(s: &Script) -> Value {
+    let ops: Vec<Value> = s
+        .ops
+        .iter()
+        .map(|op| match op {
+            Op::Write { ty, raw, codec, fault } => {
+                json!({"op": "write", "type": ty.name(), "raw": raw, "codec": codec.name(), "write_fault": wf_to_json(fault)})
+            }
+            Op::ForeignBin { ty, raw } => json!({"op": "foreign_bin", "type": ty.name(), "raw": raw}),
+            Op::ForeignText { ty, text } => json!({"op": "foreign_text", "type": ty.name(), "text": text}),
+            Op::Sync => json!({"op": "sync"}),
+            Op::CrashLose => json!({"op": "crash_lose_unsynced_tail"}),
+            Op::CrashTorn { keep, fill } => json!({"op": "crash_torn_tail", "keep": keep, "fill": fill}),
+            Op::BitFlip { pos, bit } => json!({"op": "bit_flip", "pos": pos, "bit": bit}),
+            Op::Zero { pos, len } => json!({"op": "zero", "pos": pos, "len": len}),
+            Op::Dup { src, dst, len } => json!({"op": "dup_sector", "src": src, "dst": dst, "len": len}),
+            Op::Truncate { len } => json!({"op": "truncate", "len": len}),
+            Op::ReadAll { fault, eof_record } => json!({"op": "restart_and_read_all", "read_max_chunk": us(fault.max), "eintr_every": fault.eintr_every, "early_eof_at": us(fault.early_eof), "eof_record": eof_record}),
+        })
+        .collect();
+    json!({"seed": s.seed, "run": s.run, "fault_free": s.fault_free, "enumerate_single_faults_per_record": s.enumerate, "ops": ops})
+}
+
+fn script_from_json(v: &Value) -> Result<Script, String> {
+    let mut ops = Vec::new();
+    for o in v["ops"].as_array().ok_or("ops")? {
+        let ty = || Ty::from_name(o["type"].as_str().unwrap_or("")).ok_or_else(|| "type".to_string());
+        let u = |k: &str| o[k].as_u64().map(|x| x as usize).ok_or_else(|| k.to_string());
+        ops.push(match o["op"].as_str().ok_or("op")? {
+            "write" => Op::Write {
+                ty: ty()?,
+                raw: o["raw"].as_i64().ok_or("raw")?,
+                codec: Codec::from_name(o["codec"].as_str().unwrap_or("")).ok_or("codec")?,
+                fault: wf_from_json(&o["write_fault"]),
+            },
+            "foreign_bin" => Op::ForeignBin { ty: ty()?, raw: o["raw"].as_i64().ok_or("raw")? },
+            "foreign_text" => Op::ForeignText { ty: ty()?, text: o["text"].as_str().ok_or("text")?.to_string() },
+            "sync" => Op::Sync,
+            "crash_lose_unsynced_tail" => Op::CrashLose,
+            "crash_torn_tail" => Op::CrashTorn { keep: u("keep")?, fill: u("fill")? as u8 },
+            "bit_flip" => Op::BitFlip { pos: u("pos")?, bit: u("bit")? as u8 },
+            "zero" => Op::Zero { pos: u("pos")?, len: u("len")? },
+            "dup_sector" => Op::Dup { src: u("src")?, dst: u("dst")?, len: u("len")? },
+            "truncate" => Op::Truncate { len: u("len")? },
+            "restart_and_read_all" => Op::ReadAll {
+                fault: ReadFault {
+                    max: us_back(&o["read_max_chunk"]),
+                    eintr_every: u("eintr_every")?,
+                    early_eof: us_back(&o["early_eof_at"]),
+                },
+                eof_record: u("eof_record")?,
+            },
+            other => return Err(format!("unknown op {other}")),
+        });
+    }
+    Ok(Script {
+        seed: v["seed"].as_u64().unwrap_or(0),
+        run: v["run"].as_u64().unwrap_or(0),
+        fault_free: v["fault_free"].as_bool().unwrap_or(false),
+        enumerate: v["enumerate_single_faults_per_record"].as_bool().unwrap_or(false),
+        ops,
+    })
+}
+
+fn replay(path: &str) -> i32 {
+    let v = match simcore::evidence::read_json(std::path::Path::new(path)) {
+        Ok(v) => v,
+        Err(e) => {
+            eprintln!("harness error: {e}");
+            return EXIT_HARNESS;
+        }
+    };
+    if v["kind"].as_str() == Some("miri") {
+        return miri::replay(&v, path);
+    }
+    let script = match script_from_json(&v["script"]) {
+        Ok(s) => s,
+        Err(e) => {
+            eprintln!("harness error: bad replay file: {e}");
+            return EXIT_HARNESS;
+        }
+    };
+    let mut st = Stats::default();
+    let (viol, hash) = run_script(&script, &mut st);
+    println!("replay {}: {} ops, log hash {:016x}", path, script.ops.len(), hash);
+    match viol {
+        Some((i, v)) => {
+            println!("reproduced at op {}: class={} {}", i, v.class, v.detail);
+            println!("VIOLATION property={} replay={}", PROPERTY, path);
+            EXIT_VIOLATION
+        }
+        None => {
+            println!("no violation on this tree");
+            EXIT_OK
+        }
+    }
+}
+
+mod miri {
+    //! Scenario B: concurrent first use of the shared static formatters, run
+    //! under Miri's seeded scheduler (real std::thread + once_cell code).
+    use super::*;
+    use std::process::Command;
+
+    pub struct MiriResult {
+        pub seeds_run: u64,
+        pub failure: Option<(u64, String, String)>, // (miri seed, preemption rate, output tail)
+        pub wall_s: f64,
+        pub skipped: Option<String>,
+    }
+
+    fn miri_cmd(seed_lo: u64, seed_hi: u64, rate: &str, workload: u64) -> Command {
+        let sim = simcore::verif_root().join("sim");
+        let mut c = Command::new("cargo");
+        c.current_dir(&sim)
+            .arg("+nightly")
+            .arg("miri")
+            .arg("run")
+            .arg("--offline")
+            .arg("-q")
+            .arg("-p")
+            .arg("c15")
+            .arg("--bin")
+            .arg("c15_threads")
+            .arg("--")
+            .arg(workload.to_string())
+            .env(
+                "MIRIFLAGS",
+                format!("-Zmiri-many-seeds={}..{} -Zmiri-preemption-rate={} -Zmiri-disable-isolation", seed_lo, seed_hi, rate),
+            )
+            .env("CARGO_NET_OFFLINE", "true")
+            .env("CARGO_TARGET_DIR", sim.join("target").join("miri-c15"));
+        c
+    }
+
+    pub fn run(seeds: u64, rates: &[&str], workload: u64) -> MiriResult {
+        let t0 = simcore::real_monotonic_s();
+        let mut total = 0;
+        for rate in rates {
+            let out = miri_cmd(0, seeds, rate, workload).output();
+            let out = match out {
+                Ok(o) => o,
+                Err(e) => {
+                    return MiriResult { seeds_run: total, failure: None, wall_s: simcore::real_monotonic_s() - t0, skipped: Some(format!("cannot start cargo miri: {e}")) }
+                }
+            };
+            let text = format!("{}{}", String::from_utf8_lossy(&out.stdout), String::from_utf8_lossy(&out.stderr));
+            if out.status.success() {
+                total += seeds;
+                continue;
+            }
+            if text.contains("error: could not compile") || text.contains("no such command") || text.contains("is not installed") {
+                return MiriResult { seeds_run: total, failure: None, wall_s: simcore::real_monotonic_s() - t0, skipped: Some(format!("miri build failed: {}", tail(&text, 1200))) };
+            }
+            // find the failing seed: many-seeds prints "Trying seed: N" or similar; bisect by single seeds
+            for s in 0..seeds {
+                let o = miri_cmd(s, s + 1, rate, workload).output();
+                if let Ok(o) = o {
+                    if !o.status.success() {
+                        let t = format!("{}{}", String::from_utf8_lossy(&o.stdout), String::from_utf8_lossy(&o.stderr));
+                        return MiriResult { seeds_run: total + s, failure: Some((s, rate.to_string(), tail(&t, 2500))), wall_s: simcore::real_monotonic_s() - t0, skipped: None };
+                    }
+                }
+            }
+            return MiriResult { seeds_run: total, failure: None, wall_s: simcore::real_monotonic_s() - t0, skipped: Some(format!("many-seeds run failed but no single seed reproduces: {}", tail(&text, 1200))) };
+        }
+        MiriResult { seeds_run: total, failure: None, wall_s: simcore::real_monotonic_s() - t0, skipped: None }
+    }
+
+    fn tail(s: &str, n: usize) -> String {
+        let chars: Vec<char> = s.chars().collect();
+        chars[chars.len().saturating_sub(n)..].iter().collect()
+    }
+
+    pub fn replay(v: &Value, path: &str) -> i32 {
+        let seed = v["miri_seed"].as_u64().unwrap_or(0);
+        let rate = v["preemption_rate"].as_str().unwrap_or("0.1").to_string();
+        let workload = v["workload_seed"].as_u64().unwrap_or(0);
+        match miri_cmd(seed, seed + 1, &rate, workload).output() {
+            Ok(o) if o.status.success() => {
+                println!("no violation on this tree");
+                EXIT_OK
+            }
+            Ok(o) => {
+                println!("{}", tail(&String::from_utf8_lossy(&o.stderr), 2000));
+                println!("VIOLATION property={} replay={}", PROPERTY, path);
+                EXIT_VIOLATION
+            }
+            Err(e) => {
+                eprintln!("harness error: {e}");
+                EXIT_HARNESS
+            }
+        }
+    }
+}
+
+/// Fault-free control over complete sub-spaces: every date, every second of the day.
+fn control_sweep(idx: u64, stats: &mut Stats) -> Option<(Script, Violation)> {
+    // idx < N_DATES: that date; else second (idx - N_DATES) of the day for Time, and as timestamp/oracle on a date derived from it
+    let n_dates = (DATE_MAX_DAYS - DATE_MIN_DAYS + 1) as u64;
+    let mut items: Vec<(Ty, i64)> = Vec::new();
+    if idx < n_dates {
+        let d = DATE_MIN_DAYS + idx as i64;
+        items.push((Ty::Date, d));
+        // the same day as timestamp at a varying microsecond, and as Oracle-style date
+        let us = (idx as i64 * 7_919_000_003).rem_euclid(USECS_PER_DAY);
+        items.push((Ty::Timestamp, d * USECS_PER_DAY + us));
+        items.push((Ty::Oracle, d * USECS_PER_DAY + us / 1_000_000 * 1_000_000));
+    } else {
+        let s = (idx - n_dates) as i64;
+        items.push((Ty::Time, s * 1_000_000 + (s * 7_919) % 1_000_000));
+        items.push((Ty::IntervalDT, (s - 43_200) * 99_991 * USECS_PER_DAY / 1000 + s));
+        items.push((Ty::IntervalYM, (s - 43_200) * 49_000));
+    }
+    for (ty, raw) in items {
+        if !ty.in_range(raw) {
+            continue;
+        }
+        for codec in [Codec::Json, Codec::Bincode] {
+            let mut buf: Vec<u8> = Vec::with_capacity(40);
+            let enc = codec::encode(ty, raw, codec, &mut buf);
+            stats.encodes += 1;
+            let op = Op::Write { ty, raw, codec, fault: WriteFault::None };
+            let mk = |v: Violation| {
+                (
+                    Script { seed: 0, run: idx, fault_free: true, enumerate: true, ops: vec![op.clone()] },
+                    v,
+                )
+            };
+            match enc {
+                Encoded::Ok => {}
+                Encoded::NotAValue => continue,
+                Encoded::Err(e) => {
+                    return Some(mk(Violation {
+                        class: "serialize_failed",
+                        sig: format!("serialize_failed:{}:{}", ty.name(), codec.name()),
+                        detail: format!("serializing {} raw {} as {} failed: {}", ty.name(), raw, codec.name(), e),
+                    }))
+                }
+                Encoded::Panic(m) => {
+                    return Some(mk(Violation {
+                        class: "panic",
+                        sig: format!("panic_serialize:{}:{}", ty.name(), codec.name()),
+                        detail: format!("serializing {} raw {} as {} panicked: {}", ty.name(), raw, codec.name(), m),
+                    }))
+                }
+            }
+            if codec == Codec::Json {
+                stats.max_text_len = stats.max_text_len.max(buf.len().saturating_sub(2));
+            }
+            let got = codec::decode_slice(ty, codec, &buf);
+            stats.decodes += 1;
+            stats.records += 1;
+            if let Some(v) = judge(ty, codec, "serialized", &got, Some(raw), &show_bytes(&buf), stats) {
+                return Some(mk(v));
+            }
+        }
+    }
+    None
+}
+
+fn main() {
+    let args: Vec<String> = std::env::args().collect();
+    let mut tier = std::env::var("VERIF_TIER").unwrap_or_else(|_| "quick".into());
+    let mut runs_override: Option<u64> = None;
+    let mut miri_seeds_override: Option<u64> = None;
+    let mut no_miri = false;
+    let mut out = simcore::verif_root().join("evidence").join("C15.json");
+    let mut replay_file: Option<String> = None;
+    let mut i = 1;
+    while i < args.len() {
+        match args[i].as_str() {
+            "--tier" => {
+                i += 1;
+                tier = args[i].clone();
+            }
+            "--runs" => {
+                i += 1;
+                runs_override = args[i].parse().ok();
+            }
+            "--miri-seeds" => {
+                i += 1;
+                miri_seeds_override = args[i].parse().ok();
+            }
+            "--no-miri" => no_miri = true,
+            "--out" => {
+                i += 1;
+                out = args[i].clone().into();
+            }
+            "--replay" => {
+                i += 1;
+                replay_file = Some(args[i].clone());
+            }
+            other => {
+                eprintln!("unknown argument {other}");
+                std::process::exit(EXIT_HARNESS);
+            }
+        }
+        i += 1;
+    }
+    codec::install_panic_hook();
+    if let Some(f) = replay_file {
+        std::process::exit(replay(&f));
+    }
+    if tier != "quick" && tier != "thorough" {
+        eprintln!("unknown tier {tier}");
+        std::process::exit(EXIT_HARNESS);
+    }
+    let thorough = tier == "thorough";
+    let seed = simcore::seed_from_env();
+    println!("C15 simulation: VERIF_SEED={seed} tier={tier}");
+    let t0 = simcore::real_monotonic_s();
+    let workers = pool::default_workers();
+    let known = simcore::known::load();
+
+    // ---- batch 1: fault-free configuration (round trip must hold for every record) ----
+    let n_clean: u64 = runs_override.map(|r| r / 4).unwrap_or(if thorough { 400_000 } else { 20_000 });
+    let mut total: Stats = pool::run_parallel(n_clean, workers, |idx, acc: &mut Stats, cut: &Cutoff| {
+        if let Some((s, v)) = simulate_run(seed, idx, true, acc) {
+            cut.lower_to(idx);
+            acc.violations.push((idx, s, v));
+        }
+    });
+    let clean_runs = total.runs;
+    // fault-free control over complete sub-spaces (thorough: every date and every second of the day)
+    let n_dates = (DATE_MAX_DAYS - DATE_MIN_DAYS + 1) as u64;
+    let ctrl_stride: u64 = if thorough { 1 } else { 23 };
+    let ctrl: Stats = pool::run_parallel(n_dates + 86_400, workers, |idx, acc: &mut Stats, cut: &Cutoff| {
+        if idx % ctrl_stride != 0 && idx != n_dates - 1 && idx != n_dates + 86_399 {
+            return;
+        }
+        acc.runs += 1;
+        if let Some((s, v)) = control_sweep(idx, acc) {
+            cut.lower_to(idx);
+            acc.violations.push((idx, s, v));
+        }
+    });
+    let ctrl_items = ctrl.runs;
+    let ctrl_records = ctrl.records;
+    total.merge(ctrl);
+    let t1 = simcore::real_monotonic_s();
+    println!("fault-free: {} runs + control sweep over {} days/seconds ({} records) in {:.1}s", clean_runs, ctrl_items, ctrl_records, t1 - t0);
+
+    // ---- batch 2: fault-injecting configuration ----
+    let n_fault: u64 = runs_override.unwrap_or(if thorough { 1_500_000 } else { 60_000 });
+    let fault: Stats = if total.violations.is_empty() {
+        pool::run_parallel(n_fault, workers, |idx, acc: &mut Stats, cut: &Cutoff| {
+            if let Some((s, v)) = simulate_run(seed, idx, false, acc) {
+                cut.lower_to(idx);
+                acc.violations.push((idx, s, v));
+            }
+        })
+    } else {
+        Stats::default()
+    };
+    let fault_runs = fault.runs;
+    let first_batch_violations = total.violations.clone();
+    total.merge(fault);
+    if !first_batch_violations.is_empty() {
+        total.violations = first_batch_violations;
+    }
+    let t2 = simcore::real_monotonic_s();
+    println!("fault-injecting: {} runs, {} records, {} decodes ({} enumerated single-fault decodes) in {:.1}s", fault_runs, total.records, total.decodes, total.enumerated_decodes, t2 - t1);
+
+    // ---- scenario B: threads under Miri ----
+    let miri_seeds = miri_seeds_override.unwrap_or(if thorough { 256 } else { 16 });
+    let rates: Vec<&str> = if thorough { vec!["0.05", "0.5"] } else { vec!["0.1"] };
+    let miri_res = if no_miri || !total.violations.is_empty() {
+        None
+    } else {
+        Some(miri::run(miri_seeds, &rates, seed))
+    };
+    if let Some(m) = &miri_res {
+        match (&m.failure, &m.skipped) {
+            (Some((s, r, _)), _) => println!("miri: FAILURE at scheduler seed {} preemption rate {}", s, r),
+            (None, Some(why)) => println!("miri: skipped: {}", why.lines().last().unwrap_or("")),
+            (None, None) => println!("miri: {} scheduler seeds clean in {:.1}s", m.seeds_run, m.wall_s),
+        }
+    }
+
+    // ---- violations ----
+    let mut exit = EXIT_OK;
+    let mut lines: Vec<String> = Vec::new();
+    let mut n_viol = 0;
+    if let Some((idx, script, v)) = total.violations.first().cloned() {
+        let min = shrink(script.clone(), v.class);
+        let mut st = Stats::default();
+        let (final_script, final_v) = match run_script(&min, &mut st).0 {
+            Some((_, vm)) if vm.class == v.class => (min, vm),
+            _ => (script, v),
+        };
+        println!("violation class={} sig={} : {}", final_v.class, final_v.sig, final_v.detail);
+        if let Some(desc) = known.lookup(PROPERTY, &final_v.sig) {
+            println!("KNOWN-FINDING: property={} {} ({})", PROPERTY, final_v.sig, desc);
+        } else {
+            n_viol += 1;
+            let path = simcore::verif_root().join("replays").join(format!("C15-{}-{}.json", seed, idx));
+            let body = json!({"property": PROPERTY, "kind": "disk", "class": final_v.class, "signature": final_v.sig, "detail": final_v.detail, "seed": seed, "run": idx, "script": script_to_json(&final_script)});
+            if let Err(e) = simcore::evidence::write_json_atomic(&path, &body) {
+                eprintln!("harness error: cannot write replay file: {e}");
+                std::process::exit(EXIT_HARNESS);
+            }
+            let exe = std::env::current_exe().expect("current_exe");
+            let confirmed = std::process::Command::new(exe)
+                .arg("--replay")
+                .arg(&path)
+                .output()
+                .map(|o| o.status.code() == Some(EXIT_VIOLATION))
+                .unwrap_or(false);
+            if confirmed {
+                lines.push(format!("VIOLATION property={} replay={}", PROPERTY, path.display()));
+                exit = EXIT_VIOLATION;
+            } else {
+                eprintln!("harness error: violation did not reproduce from {}", path.display());
+                exit = EXIT_HARNESS;
+            }
+        }
+    }
+    if let Some(m) = &miri_res {
+        if let Some((s, rate, text)) = &m.failure {
+            n_viol += 1;
+            let path = simcore::verif_root().join("replays").join(format!("C15-miri-{}-{}.json", seed, s));
+            let body = json!({"property": PROPERTY, "kind": "miri", "miri_seed": s, "preemption_rate": rate, "workload_seed": seed, "detail": text});
+            let _ = simcore::evidence::write_json_atomic(&path, &body);
+            println!("{}", text);
+            lines.push(format!("VIOLATION property={} replay={}", PROPERTY, path.display()));
+            exit = EXIT_VIOLATION;
+        }
+    }
+
+    // ---- evidence ----
+    let wall = simcore::real_monotonic_s() - t0;
+    let mut fk = serde_json::Map::new();
+    for (i, name) in FAULTS.iter().enumerate() {
+        fk.insert(name.to_string(), json!({"configured": total.fault_configured[i], "fired_on_payload": total.fault_fired[i]}));
+    }
+    let mut outcomes = serde_json::Map::new();
+    for ((ty, codec, what), n) in &total.outcomes {
+        outcomes.insert(format!("{}/{}/{}", ty.name(), codec.name(), what), json!(n));
+    }
+    let mut samples = total.samples.clone();
+    if samples.is_empty() {
+        samples.push(json!({"note": "no fault-injecting run sampled"}));
+    }
+    let evidence = json!({
+        "property_id": PROPERTY,
+        "tier": tier,
+        "seed": seed,
+        "level": "fault_enumeration",
+        "wall_s": wall,
+        "violations": n_viol,
+        "coverage": {
+            "evaluations": total.decodes,
+            "distinct_nontrivial": total.distinct.len(),
+            "rule": "evaluations = decode executions of the real Deserialize impls through the storage seam (restart read-back of every catalogued record + per-record enumeration of EVERY single-bit flip and EVERY truncation length of the record as serialized). distinct_nontrivial = distinct (type, codec, fault kind on the record's own bytes, damaged bit / surviving length class, ok|err|panic) tuples among decodes where a fault actually hit the record.",
+            "exhaustive": false,
+            "samples": samples,
+            "runs": {"fault_free": clean_runs, "fault_injecting": fault_runs, "control_sweep_items": ctrl_items},
+            "runs_per_hour": if t2 - t1 > 0.0 { (fault_runs as f64 / (t2 - t1) * 3600.0) as u64 } else { 0 },
+            "seeds": format!("VERIF_SEED={} -> per-run xoshiro256** streams", seed),
+            "records_written": total.records,
+            "serializations": total.encodes,
+            "enumerated_single_fault_decodes": total.enumerated_decodes,
+            "control_sweep": {"stride": ctrl_stride, "complete_over_all_dates_and_all_seconds_of_day": ctrl_stride == 1, "records": ctrl_records},
+            "fault_kinds": fk,
+            "outcomes": outcomes,
+            "probes": total.probes,
+            "max_human_readable_length_seen": total.max_text_len,
+            "interleavings": match &miri_res {
+                Some(m) => json!({"engine": "Miri seeded scheduler over real std::thread + once_cell + parking_lot", "scheduler_seeds_run": m.seeds_run, "preemption_rates": rates, "wall_s": m.wall_s, "skipped": m.skipped}),
+                None => json!({"skipped": "--no-miri or earlier violation"}),
+            },
+            "simulated_time_covered": "not meaningful: the code under test has no timers; the storage simulator has no time axis",
+            "batch_hash": format!("{:016x}", total.batch_hash),
+            "workers": workers,
+            "components": {
+                "real": ["sqldatetime Serialize/Deserialize impls, static Lazy formatters, Formatter::format/parse, StackStr<32>", "serde_json writer/reader front ends", "bincode", "once_cell + parking_lot (scenario B under Miri)"],
+                "stub": ["the disk (SimDisk: page cache, sync, crash, at-rest damage, read faults)", "record framing and catalogue (harness, not subject to faults)"]
+            },
+            "build_profiles": ["release"],
+        },
+        "assumptions": [
+            "a record is expected to round-trip only if its serialization was acknowledged, synced before any crash, and no injected fault touched its bytes or its read; any other record may decode to an error or to any in-range value",
+            "range limits are coded in the harness from the documented ranges, not imported from the library"
+        ],
+    });
+    if let Err(e) = simcore::evidence::write_json_atomic(&out, &evidence) {
+        eprintln!("harness error: cannot write evidence: {e}");
+        std::process::exit(EXIT_HARNESS);
+    }
+    println!(
+        "C15: decodes={} distinct_nontrivial={} records={} batch_hash={:016x} wall={:.1}s",
+        total.decodes,
+        total.distinct.len(),
+        total.records,
+        total.batch_hash,
+        wall
+    );
+    for l in lines {
+        println!("{l}");
+    }
+    std::process::exit(exit);
+}
